@@ -17,10 +17,13 @@ MC = {
 }
 # configurations on which the algorithm model is known to violate an invariant: each one documents a
 # finding at design level and doubles as a vacuity guard (the invariant CAN fail)
+# (cfg, invariant, what, fix that makes the invariant hold)
 GUARDS = [
-    ("MC_Containers_f1codes.cfg", "CodesOK", "E416 reported for a structure-only cycle that merely contains a constant"),
-    ("MC_Containers_f2constptr.cfg", "Agree", "|:&S| in an initialiser is registered as containment of S"),
-    ("MC_Containers_f3ptrlen.cfg", "Agree", "a structure with a member &[C]T may be typed before the constant C"),
+    ("MC_Containers_f1codes.cfg", "CodesOK", "E416 reported for a structure-only cycle that merely contains a constant",
+     "PENNE_FIXED_E416"),
+    ("MC_Containers_f2constptr.cfg", "Agree", "|:&S| in an initialiser is registered as containment of S",
+     "PENNE_FIXED_SIZEOF_PTR"),
+    ("MC_Containers_f3ptrlen.cfg", "Agree", "a structure with a member &[C]T may be typed before the constant C", None),
 ]
 RECORD = {"quick": (1500, 8), "thorough": (30000, 8)}
 
@@ -129,10 +132,17 @@ def run(rep, tier, seed, selftest, st):
     if not cases:
         raise common.ToolError("TLC emitted no containment cases")
     guards = {}
-    for cfg, inv, what in GUARDS:
-        ok, r = mu.expect_violation("C11", "MC_Containers", cfg, inv)
-        guards["%s violates %s" % (cfg, inv)] = ok
-        log("[tlc] %s: invariant %s %s (%s)" % (cfg, inv, "violated as expected" if ok else "NOT violated", what))
+    for cfg, inv, what, fix in GUARDS:
+        violated, r = mu.expect_violation("C11", "MC_Containers", cfg, inv)
+        if fix and mu.fixed(fix):
+            # the tree contains the fix: the model follows it and the invariant must hold now
+            ok = r.ok
+            guards["%s satisfies %s (fixed)" % (cfg, inv)] = ok
+            log("[tlc] %s: invariant %s %s (the tree contains the fix for: %s)" % (cfg, inv, "holds" if ok else "VIOLATED", what))
+        else:
+            ok = violated
+            guards["%s violates %s" % (cfg, inv)] = ok
+            log("[tlc] %s: invariant %s %s (%s)" % (cfg, inv, "violated as expected" if ok else "NOT violated", what))
     # ---- 2. replay every case --------------------------------------------------------------
     cases_path = os.path.join(common.WORK, "C11-graph-cases.ndjson")
     obs_path = os.path.join(common.WORK, "C11-graph-obs.ndjson")
@@ -207,13 +217,14 @@ def run(rep, tier, seed, selftest, st):
         # (the model's cycle reports are not part of a rule-level BAD line; the tag is restricted to the
         #  observation it explains: only E433 on the predicted structures / E416 on a structure cycle)
         for problem in b["problems"]:
-            rep.violation("containers-trace/" + problem, key_of(case, obs, problem),
+            # same kind and key as a replayed case: one known-finding entry covers both directions
+            rep.violation("containers/" + problem, key_of(case, obs, problem),
                           {"part": "containers-trace", "case": case, "observed": obs, "problem": problem,
                            "message": "TLC (Trace_Containers, rule level) rejects the outcome of this recorded run"})
     rep.flush()
     rep = real_rep
     ok_runs -= len(bad)
-    strict = common.tlc_traces("Trace_Containers", "Trace_Containers_strict.cfg", files, parallel=8)
+    strict = common.tlc_traces("Trace_Containers", "Trace_Containers_strict.cfg", files, parallel=8, extra_env=mu.probe_fixes())
     strict_ok = sum(1 for s in strict if s["accepted"])
     for s in strict:
         if not s["accepted"]:
@@ -267,7 +278,7 @@ def trace_selftest(path):
         p = os.path.join(common.WORK, "selftest-C11-%s.ndjson" % name)
         open(p, "w").write("\n".join(ls) + "\n")
         files.append((name, p))
-    res = common.tlc_traces("Trace_Containers", "Trace_Containers_rule.cfg", [p for _, p in files])
+    res = common.tlc_traces("Trace_Containers", "Trace_Containers_rule.cfg", [p for _, p in files], extra_env=mu.probe_fixes())
     by = {r["file"]: r for r in res}
     for name, p in files:
         if "rejected" in name:
